@@ -8,6 +8,7 @@ import (
 	"sort"
 	"strings"
 
+	"git.defalsify.org/vise.git/vm"
 	"pgregory.net/rapid"
 
 	"verifharness/app"
@@ -839,7 +840,24 @@ func inputAccepted(in string) bool {
 	if in == "" {
 		return true
 	}
-	return inputRegex.MatchString(in)
+	return inputRegex.MatchString(in) || (customInputRe != nil && customInputRe.MatchString(in))
+}
+
+// customInputRe: an additional input format registered with the library for this process
+// (engine.AddValidInput / vm.RegisterInputValidator are process-wide and permanent, so only
+// the C17 process — check or replay — registers one).
+var customInputRe *regexp.Regexp
+
+const customInputFormat = `^#[0-9]{1,3}$`
+
+func enableCustomInputFormat() {
+	if customInputRe != nil {
+		return
+	}
+	if err := vm.RegisterInputValidator(0, customInputFormat); err != nil {
+		panic(err)
+	}
+	customInputRe = regexp.MustCompile(customInputFormat)
 }
 
 var junkInputs = []string{"x", "zz", "99", "+1", "1 2", "0000", "hello world", "7*", "11", "22", "0x", "1\x00", "9\xff",
@@ -898,6 +916,9 @@ func GenHistory(t *rapid.T, a *app.App, o HistOpts) []string {
 		case k < 15:
 			return ""
 		case k < 18 && o.Junk:
+			if customInputRe != nil && chancePct(t, 20, "customformat") {
+				return []string{"#1", "#42", "#007", "#999"}[uniformN(t, 4, "customv")]
+			}
 			if chancePct(t, 15, "swapcase") {
 				// a selector of the application in the other case
 				sel := rapid.SampledFrom(sels).Draw(t, "swapsel")
